@@ -11,6 +11,13 @@ op (rationals "p/q", problems as `harness/impl.py: problem_json` writes them):
   `split_upper_bounds`, `split_equals_unsplit`; `perm[j]` = the variable of `U` that is variable `j` of the
   block sum of the interval problems.  `reason` is a diagnosis computed beside the model (same tests, in the
   same order, with words).
+* `split_le_witness`  `{problem: U, intervals: [P1, …], perm: [i], lams: [[r, …], …]}` → `{witness: bool, reason: str}`
+  `witness` is `EAO.splitLeWitness U [P1, …] perm lams` — the decidable hypothesis of
+  `EAO.C14.split_le_witness_feasible`, `split_le_unsplit`, `split_solution_le_unsplit`; `lams[i]` = the multipliers
+  (one per row of the block sum, in its row order; for an equality row optionally two lists one after the other)
+  that combine rows of the interval problems to row `i` of the unsplit problem.  Instead of `lams` the request may
+  carry `lams_sparse: [[[k, r], …], …]` (only the non-zero multipliers with their positions); the handler expands
+  it to the dense lists the model checks.
 -/
 open Lean EAO
 namespace EAO.Driver
@@ -75,8 +82,75 @@ def splitReason (U : Problem) (ps : List Problem) (perm : List Nat) : String :=
         | some j => s!"split variable {j} is boolean in the interval problem only"
         | none => ""
 
+/-- why a single certificate fails (`ge`: the direction `≥`) -/
+def certReason (a : List (Nat × Rat)) (b : Rat) (rows : List Row) (lam : List Rat) (ge : Bool) : String :=
+  let L := activeRows rows lam
+  if lam.length != rows.length then s!"{lam.length} multipliers for {rows.length} rows of the block sum"
+  else match (rows.zip lam).zipIdx.find? (fun q => q.1.2 != 0 &&
+      !(if ge then signGe q.1.1.kind q.1.2 else signLe q.1.1.kind q.1.2)) with
+  | some q => s!"multiplier {ratToString q.1.2} of block row {q.2} (type {kindStr q.1.1.kind}) has the wrong sign for the direction {if ge then ">=" else "<="}"
+  | none =>
+    let comb := normCoeffs (combCoeffs L)
+    let want := normCoeffs a
+    if comb != want then
+      let cols := (comb.map (·.1) ++ want.map (·.1)).eraseDups
+      let get (cs : List (Nat × Rat)) (j : Nat) : Rat := ((cs.find? fun p => p.1 == j).map (·.2)).getD 0
+      match cols.find? (fun j => get comb j != get want j) with
+      | some j => s!"the combination of {L.length} block row(s) has coefficient {ratToString (get comb j)} at split variable {j}, the row {ratToString (get want j)}"
+      | none => "the combination has other coefficients"
+    else
+      let r := combRhs L
+      if ge then (if decide (b ≤ r) then "" else s!"right-hand side of the combination {ratToString r} is below the row's {ratToString b}")
+      else (if decide (r ≤ b) then "" else s!"right-hand side of the combination {ratToString r} exceeds the row's {ratToString b}")
+
+def impliedReason (r : Row) (rows : List Row) (lam : List Rat) : String :=
+  match r.kind with
+  | .U => certReason r.coeffs r.rhs rows lam false
+  | .L => certReason r.coeffs r.rhs rows lam true
+  | _ =>
+    let (l1, l2) := if lam.length = rows.length then (lam, lam) else (lam.take rows.length, lam.drop rows.length)
+    let s1 := certReason r.coeffs r.rhs rows l1 false
+    if !s1.isEmpty then s!"equality row, direction <=: {s1}" else
+    let s2 := certReason r.coeffs r.rhs rows l2 true
+    if !s2.isEmpty then s!"equality row, direction >=: {s2}" else ""
+
+/-- first obstacle in words; empty iff the one-sided witness is true -/
+def splitLeReason (U : Problem) (ps : List Problem) (perm : List Nat) (lams : List (List Rat)) : String :=
+  if !U.wfIdx then "the unsplit problem is ill-formed (length of the bounds, or a column / mapping index out of range)"
+  else match ps.zipIdx.find? (fun q => !q.1.wfIdx) with
+  | some q => s!"interval problem {q.2} is ill-formed (length of the bounds, or a column / mapping index out of range)"
+  | none =>
+  if !isPermOf perm U.n then
+    s!"perm (length {perm.length}) is not a permutation of the {U.n} variables of the unsplit problem"
+  else
+    let A := U.renameAlong perm
+    let B := blockSum ps
+    let sizes := ps.map (·.n)
+    let sh (v : Option Rat) := match v with | some r => ratToString r | none => "-"
+    let whereIs (j : Nat) := s!"split variable {j} (interval {intervalOf sizes j}, unsplit variable {perm.getD j 0})"
+    if A.n != B.n then s!"the unsplit problem has {A.n} variables, the interval problems together {B.n}"
+    else match firstDiff A.c B.c with
+    | some j => s!"cost of {whereIs j}: unsplit {sh A.c[j]?}, split {sh B.c[j]?} — the objectives differ, this is not a situation for the one-sided witness"
+    | none =>
+    if A.l.length != B.l.length || A.u.length != B.u.length then "bound vectors of different length"
+    else match (List.range A.l.length).find? (fun j => !decide (A.l.getD j 0 ≤ B.l.getD j 0)) with
+    | some j => s!"lower bound of {whereIs j}: unsplit {sh A.l[j]?} is tighter than split {sh B.l[j]?}"
+    | none => match (List.range A.u.length).find? (fun j => !decide (B.u.getD j 0 ≤ A.u.getD j 0)) with
+    | some j => s!"upper bound of {whereIs j}: unsplit {sh A.u[j]?} is tighter than split {sh B.u[j]?}"
+    | none => match A.boolVars.find? (fun j => !B.boolVars.contains j) with
+    | some j => s!"split variable {j} is boolean in the unsplit problem only"
+    | none =>
+    if lams.length != A.rows.length then s!"{lams.length} multiplier lists for {A.rows.length} rows of the unsplit problem"
+    else
+      let bad := (A.rows.zip lams).zipIdx.filter fun q => !rowImplied q.1.1 B.rows q.1.2
+      match bad.head? with
+      | some q =>
+        let ivs := (q.1.1.coeffs.map fun p => intervalOf sizes p.1).eraseDups
+        s!"{bad.length} row(s) of the unsplit problem are not certified to follow from the interval rows; first: unsplit row {q.2}, in split numbering {describeRow q.1.1.norm}, over interval(s) {ivs}: {impliedReason q.1.1 B.rows q.1.2}"
+      | none => ""
+
 def handleSplit (op : String) (j : Json) : Option (Except String Json) :=
-  let known := ["split_witness"]
+  let known := ["split_witness", "split_le_witness"]
   if !known.contains op then none else some <| do
   match op with
   | "split_witness" => do
@@ -87,6 +161,24 @@ def handleSplit (op : String) (j : Json) : Option (Except String Json) :=
     let reason := if w then "" else
       let s := splitReason U ps perm
       if s.isEmpty then "witness false but no mismatch found by the diagnosis (report this)" else s
+    pure (Json.mkObj [("witness", Json.bool w), ("reason", Json.str reason)])
+  | "split_le_witness" => do
+    let U ← field j "problem" getProblem
+    let ps ← field j "intervals" (getList getProblem)
+    let perm ← field j "perm" getNats
+    let m := (blockSum ps).rows.length
+    let lams ← match (← fieldOpt j "lams" (getList getRats)) with
+      | some l => pure l
+      | none => do
+        -- sparse form: per unsplit row the list of [position, multiplier]; positions >= m address the second list of an equality row
+        let sp ← field j "lams_sparse" (getList (getList getCoeff))
+        pure (sp.map fun ent =>
+          let len := if ent.any (fun p => p.1 ≥ m) then 2 * m else m
+          (List.range len).map fun k => ((ent.find? fun p => p.1 == k).map (·.2)).getD 0)
+    let w := splitLeWitness U ps perm lams
+    let reason := if w then "" else
+      let s := splitLeReason U ps perm lams
+      if s.isEmpty then "witness false but no obstacle found by the diagnosis (report this)" else s
     pure (Json.mkObj [("witness", Json.bool w), ("reason", Json.str reason)])
   | _ => throw s!"unknown op {op}"
 
